@@ -36,7 +36,7 @@ TRUSTED = ['numpy', 'pandas', 'multiprocessing (fork)']
 @st.composite
 def strategy(draw, tier):
     band, n = draw(gc.st_group_base())
-    big = draw(st.integers(0, 5)) == 0
+    big = draw(st.integers(0, 3)) == 0
     rows = draw(st.integers(8, 12)) if big else draw(st.integers(1, 6))
     sigs = [draw(gc.st_row_signal(band, n, k)) for k in range(rows)]
     mode = draw(st.sampled_from(['none', 'dict', 'dict', 'list', 'list', 'same-dict-list']))
@@ -46,7 +46,7 @@ def strategy(draw, tier):
         opts = [draw(gc.st_options(band, sparse=True)) for _ in range(rows)]
     else:
         opts = None
-    n_jobs = 1 if big and draw(st.booleans()) else draw(st.sampled_from([1, 2, 2, rows, rows + 3, -1]))
+    n_jobs = 1 if big and draw(st.integers(0, 2)) > 0 else draw(st.sampled_from([1, 2, 2, rows, rows + 3, -1]))
     delays = draw(st.lists(st.sampled_from([0, 0, 10, 20, 40, 60]), min_size=rows, max_size=rows))
     if draw(st.integers(0, 2)) == 0:
         delays = sorted(delays, reverse=True)
